@@ -294,10 +294,11 @@ def shard(idx, n, seed, tier, params):
             cap = 200_000
         elif origin_class(origin) == "special" and any(files["main.asm"].lstrip("nop\nl: {").startswith(t) for t in RECURSIVE_MACROS):
             cap = RECURSION_WORK_CAP
-        # (the listing writer is quadratic in the number of source lines - 40 s for 20 000 lines; slow is not "never ends", so
+        # (the listing writer is quadratic in the number of source lines - 40 s for 20 000 lines - and so is the probe's own dump of
+        # the source map with its address look-ups; slow is not "never ends", so
         # inputs with thousands of lines skip that stage instead of running into the watchdog)
         many_lines = sum(t.count("\n") for t in files.values() if isinstance(t, str)) > 5000
-        r = probe.ask({"files": files, "main": main, "ops": [o for o in OPS if not (many_lines and o == "listing")], "opts": {"pass_cap": 1500, "work_cap": cap}})
+        r = probe.ask({"files": files, "main": main, "ops": [o for o in OPS if not (many_lines and o in ("listing", "source_map"))], "opts": {"pass_cap": 1500, "work_cap": cap}})
         check_response(acc, r, files, origin)
         return r
 
